@@ -39,7 +39,7 @@ type dfworld struct {
 
 func newDFWorld(id string, workers int) (*dfworld, error) {
 	s := sim.NewCluster()
-	e, err := env.New(s, false)
+	e, err := env.NewWithDiscoveryInterval(s, false, 25*time.Millisecond)
 	if err != nil {
 		return nil, err
 	}
